@@ -21,9 +21,10 @@ Graphs2 == {P \in Graphs : Cardinality(HeadsOfGraph(P)) <= 2}
 PairsOf(P) == LET h == HeadsOfGraph(P)
               IN IF Cardinality(h) = 1 THEN LET x == CHOOSE y \in h : TRUE IN {<<x, y>> : y \in 0..Len(P)} \cup {<<y, x>> : y \in 0..Len(P)}
                  ELSE {<<x, y>> \in h \X h : x # y}
-Triples == UNION {{<<P, p[1], p[2]>> : p \in PairsOf(P)} : P \in Graphs2}
+\* (filters over products, not UNIONs of many small sets: TLC's UNION is quadratic in the number of sets)
+Triples == {x \in Graphs2 \X (0..MaxRev) \X (0..MaxRev) : <<x[2], x[3]>> \in PairsOf(x[1])}
 \* branches: a graph, a tip, and the other tips s that make (t, s) a covering pair
-Branches == UNION {{<<P, p[1]>> : p \in {q \in PairsOf(P) : q[1] # Null}} : P \in Graphs2}
+Branches == {x \in Graphs2 \X (1..MaxRev) : \E p \in PairsOf(x[1]) : p[1] = x[2]}
 TipsOf(P) == {p[1] : p \in PairsOf(P)} \ {Null}
 OthersOf(P, t) == {p[2] : p \in {q \in PairsOf(P) : q[1] = t}}
 Sample(S) == LET all == SetToSeq(S) IN {all[k] : k \in {j \in DOMAIN all : (j + Offset) % Stride = 0}}
